@@ -55,6 +55,12 @@ func c14Decode(b []byte) string {
 
 func TestVerifC14(t *testing.T) {
 	spans := c14Spans()
+	// what the second exporter of an Interleave configuration exports (other content, other size)
+	t1 := time.Unix(1800000000, 0)
+	foreign := tracetest.SpanStubs{
+		{Name: "c14-span-of-the-other-exporter", SpanContext: trace.NewSpanContext(trace.SpanContextConfig{TraceID: trace.TraceID{9, 9}, SpanID: trace.SpanID{8, 8}, TraceFlags: trace.FlagsSampled}), StartTime: t1, EndTime: t1.Add(time.Minute)},
+		{Name: "c14-second-span-of-the-other-exporter", SpanContext: trace.NewSpanContext(trace.SpanContextConfig{TraceID: trace.TraceID{9, 9}, SpanID: trace.SpanID{7, 7}, TraceFlags: trace.FlagsSampled}), StartTime: t1, EndTime: t1.Add(time.Minute)},
+	}.Snapshots()
 	verifc14.Run(t, verifc14.Target{
 		Name:          "otlptracehttp",
 		HTTP:          true,
@@ -69,14 +75,18 @@ func TestVerifC14(t *testing.T) {
 			if c.Gzip {
 				comp = GzipCompression
 			}
-			cl := NewClient(WithInsecure(), WithEndpoint("c14.invalid:4318"), WithCompression(comp),
+			host, payload := "c14.invalid:4318", spans
+			if c.Foreign {
+				host, payload = verifc14.ForeignHost, foreign
+			}
+			cl := NewClient(WithInsecure(), WithEndpoint(host), WithCompression(comp),
 				WithRetry(RetryConfig{Enabled: c.Enabled, InitialInterval: c.Initial, MaxInterval: c.MaxInterval, MaxElapsedTime: c.MaxElapsed}))
 			cl.(*client).client.Transport = verifc14.RoundTripper()
 			e, err := otlptrace.New(context.Background(), cl)
 			if err != nil {
 				panic(err)
 			}
-			return c14Exporter{e: e, spans: spans}
+			return c14Exporter{e: e, spans: payload}
 		},
 	})
 }
